@@ -62,7 +62,7 @@ def ArmSimC (clob : Nat → Nat → BitVec 64) (i : Insn) : Prop :=
     Rel0 retAddr σ s → LogRel σ s → s.mem.stack.base % 16 = 0 → s.pc = pc + 1 →
     jitExecC clob env s i = .next s' →
     ∃ k σ', stepsN c k σ = some σ' ∧ Rel0 retAddr σ' s' ∧ LogRel σ' s' ∧ topBytes σ' s' = topBytes σ s ∧
-      σ'.misaligned = σ.misaligned ∧ s'.mem.stack.base = s.mem.stack.base ∧
+      σ'.misaligned = σ.misaligned ∧ s'.mem.stack.base = s.mem.stack.base ∧ s'.frames = s.frames ∧ CallersKept σ σ' s ∧
       ((s'.pc = pc + n ∧ σ'.rip = c.codeBase + b) ∨
        (∃ l, tgt (.pc (s'.pc : Int)) = some l ∧ σ'.rip = c.codeBase + l))
 
